@@ -148,6 +148,14 @@ def run(ctx, rep):
         if name in ("hs-good", "hs-type1"):
             continue
         check_fail("hostile:" + name, attempt(ctx, lambda d, c, g, i=i: M.hs_hostile(rng, bytes(rbytes(rng, 32)), g)[i][1], prior=prior), {})
+    # ---- key agreement when replies are late: histories on the session level (sess / sessgen) ----------------------------
+    import sess
+    import sessgen
+    for c in sessgen.late_hs_histories(rng, ctx.n(40, 800)):
+        im = sess.run_impl(ctx.model, rng, *c)
+        rep.case(("late", str(c[3]), str(c[1][:4])), "late-handshake-replies")
+        for klass, detail in sess.device_key_discipline(c, im[3], sess.run_impl.last_event_times):
+            rep.fail("oracle", klass, {"connects": c[0], "hs_replies": c[1], "replies": c[2], "ops": c[3]}, detail)
     # ---- _get_local_key correspondence --------------------------------------------------------------------
     cases = []
     for i in range(ctx.n(150, 3000)):
